@@ -302,18 +302,17 @@ theorem intconst_accept_sound (sc : Bool) (v : Nat) (hv : v < 2 ^ 64) (decimal :
 
 example : inttype true (2 ^ 63) true "" = .noType ∧ inttype true 5 true "q" = .badSuffix := by decide
 
-/-- **Enumerator values**, 6.7.2.2p2 / C23: representable in the (underlying) type -/
-def enum_value_accept_sound_full : Prop := C05.hasint_full
-
-/-- `enum E : _Bool { A = 2 };` accepted (known finding C05 `enum-bool-range`) -/
-theorem enum_value_accept_sound_counterexample : ¬ enum_value_accept_sound_full := C05.hasint_counterexample
-
-theorem enum_value_accept_sound_partial (sc : Bool) (t : ATy) (hwf : t.wf = true) (hi : t.isInt = true)
-    (hb : intTypeOf t ≠ .bool) (v : Nat) (hv : v < 2 ^ 64) (sign : Bool)
+/-- **Enumerator values**, 6.7.2.2p2 / C23 6.7.2.2p5: an enumerator `tagspec` accepts for a (fixed or
+chosen) underlying type is representable in it — every integer type, `_Bool` included (full strength
+since fix 08f8fa4: `enum E : _Bool { A = 2 };` used to be accepted). -/
+theorem enum_value_accept_sound (sc : Bool) (t : ATy) (hwf : t.wf = true) (hi : t.isInt = true)
+    (v : Nat) (hv : v < 2 ^ 64) (sign : Bool)
     (h : typehasint sc t v sign = true) : inRange (range sc t) (decode v sign) := by
-  have := C05.hasint_partial sc t hwf hi hb v hv sign
+  have := C05.hasint_correct sc t hwf hi v hv sign
   rw [h] at this
   exact of_decide_eq_true this.symm
+
+example : typehasint true (.enum 0 .bool) 2 false = false ∧ typehasint true (.enum 0 .bool) 1 false = true := by decide
 
 end Expressions
 
